@@ -22,9 +22,16 @@ Definition mag_of (vs : list (vec3 Q)) (m0 : Q) : Q := fold_left (fun m p => Qma
 Definition band : Q := 1 # 100000000.
 Definition decided (exact : bool) (m sd : Q) : bool := exact || negb (Qle_bool (Qabs sd) (band * m)).
 
+(* closeness relative to the magnitude of the case's own coordinates only (no absolute floor): a polyline at scale
+   2^-30 is compared as strictly as one at scale 1 *)
+Definition close_rel (mag a b : Q) : bool :=
+  Qle_bool (Qabs (a - b)) (tol * Qmax' mag (Qmax' (Qabs a) (Qabs b))).
+Definition fl_close_rel (mag m : Q) (o : fl) : bool := match o with Fin q => close_rel mag m q | _ => false end.
+Definition vec_close_rel (mag : Q) (m : vec3 Q) (o : list fl) : bool := all2 (fl_close_rel mag) (vlist m) o.
+
 Definition row_close (m : Q) (r : xrow Q) (o : list fl) : bool :=
   match r with
-  | XPt v => vec_close_mag m v o
+  | XPt v => vec_close_rel m v o
   | XNan => forallb fl_is_nan o && Nat.eqb (length o) 3
   end.
 
@@ -40,12 +47,12 @@ Definition sane (o : result oslice) : bool :=
 Definition check_case (c : case) : bool :=
   match c with
   | CSlice exact closed pl vs o =>
-      let m := mag_of vs (Qmax' 1 (vmag (pref pl))) in
+      let m := mag_of vs (vmag (pref pl)) in   (* largest |coordinate| of the case, no floor *)
       if forallb (fun v => decided exact m (plane_sd QOps pl v)) vs
       then res_agree (fun r ob => all2 (row_close m) (s_rows r) (o_rows ob) && Bool.eqb (s_closed r) (o_closed ob))
                      (sliced_polyline QOps pl (MkPolyline vs closed)) o
       else sane o   (* some side is within rounding: only what does not depend on the classification *)
   | CXsect start seg ref n o =>
-      let m := mag_of [start; seg; ref] 1 in
+      let m := mag_of [start; seg; ref] 0 in
       row_close m (intersect_segment_with_plane QOps start seg ref n) o
   end.
